@@ -1461,7 +1461,9 @@ def parse_bankacctinfos(acctinfos: Sequence[models.BANKACCTINFO]) -> ParsedAccti
             bankids.append(inf.bankid)
             args_[inf.accttype.lower()].append(inf.acctid)
 
-    args_["bankid"] = utils.collapseToSingle(bankids, "BANKIDs")
+    # No active accounts of this kind isn't an error; there's just nothing to add
+    if bankids:
+        args_["bankid"] = utils.collapseToSingle(bankids, "BANKIDs")
     return dict(args_)
 
 
@@ -1474,7 +1476,8 @@ def parse_invacctinfos(acctinfos: Sequence[models.INVACCTINFO]) -> ParsedAcctinf
             brokerids.append(acctfrom.brokerid)
             args_["investment"].append(acctfrom.acctid)
 
-    args_["brokerid"] = utils.collapseToSingle(brokerids, "BROKERIDs")
+    if brokerids:
+        args_["brokerid"] = utils.collapseToSingle(brokerids, "BROKERIDs")
     return dict(args_)
 
 
